@@ -1,6 +1,8 @@
 CONSTANTS
   Dev = {"D_xfr_unreachable_qtype", "D_xfr_dup_rr_kept", "D_zone_diff_not_net", "D_ixfr_soa_chain_unchecked"}
   RecU = {1, 2, 9}
+  TtlU = {0}
+  Styles = {"rfc"}
   MaxC = 2
   Kinds = {"axfr", "ixfr1", "fallback", "uptodate"}
   MaxMsgs = 3
